@@ -191,6 +191,9 @@ def gen_client_cases(ctx, thorough):
         cases.append(f'badparam {op} 65535 2 overflow')
     cases.append('states rh 0 0 close')
     cases.append('states rh 0 0 refuse')
+    # notification SEQUENCES (repeats included): a serial port that cannot be opened, a refused TCP port
+    cases.append('notify rh 0 5 rtu')
+    cases.append('notify rh 0 7 tcp')
     # ONE list object passed to several write-multiple calls (periodic write of a prepared block; a value added in between)
     for op in ('wmc', 'wmr'):
         top = 1968 if op == 'wmc' else 123
@@ -497,6 +500,16 @@ def check_client(ctx, cases):
                      + (' (one value added after each call)' if add else '') + f': call #{j + 1} gave <return code>/<callback>@<request on the wire> = {g[:160]}; '
                      f'a call must not change the caller\'s list: expected {want[j][:160] if j < len(want) else "(nothing)"}', c, i, spec=';'.join(want))
             reuse_cases.append((c, op, start, n, k, add, ';'.join(got), i))
+        elif sc == 'notify':
+            classes['notify-' + extra] = classes.get('notify-' + extra, 0) + 1
+            f_seq = ffi.split('/', 1)[1]
+            want = '>'.join((['Disabled'] + ['Wait'] * (n - 1)) if extra == 'rtu' else (['Disabled'] + ['Connecting', 'WaitAfterFailedConnect'] * n)[:n])
+            if rust != want:
+                fail('rust-api-unexpected.notify', f'{c}: the Rust API listener saw {rust}, expected {want}', c, i, nfi=True)
+            elif f_seq != rust:
+                what = 'serial channel (rodbus_client_channel_create_rtu) on a path that cannot be opened' if extra == 'rtu' else 'TCP channel on a refused port'
+                fail('listener-notifications-differ.' + extra, f'{what}: the first {n} notifications of the Rust API listener are {rust}; the C listener got {f_seq or "(nothing)"} within 3 s '
+                     '(every update must be forwarded, repeated states included)', c, i, spec=rust)
         elif sc == 'states':
             classes['states'] = classes.get('states', 0) + 1
             f_seq = ffi.split('/', 1)[1]
